@@ -17,6 +17,7 @@ import (
 	"time"
 
 	"github.com/tetratelabs/wazero"
+	"github.com/tetratelabs/wazero/experimental/sock"
 
 	"verifharness/sim"
 	"verifharness/sims/wasifs"
@@ -178,9 +179,36 @@ func genScript(t *tape.Tape) []call {
 	return s
 }
 
-// runScript executes the script on a fresh default-configured guest.
-func runScript(engine string, script []call) (trace []string, err error) {
-	g, err := wasifs.RuntimeFor(engine).NewGuest(wazero.NewModuleConfig())
+// sharedDefault is ONE default configuration value reused, as it is, for many
+// instantiations of this process (the way an embedder keeps a base config
+// around): what an earlier instantiation did with it must not show later.
+var sharedDefault = wazero.NewModuleConfig()
+
+// newDefaultGuest: a fresh NewModuleConfig(), or the shared value; sockFirst
+// first instantiates (and closes) a guest with the shared value under a
+// context that carries a sock configuration.
+func newDefaultGuest(engine string, shared, sockFirst bool) (*w.Guest, error) {
+	rt := wasifs.RuntimeFor(engine)
+	if !shared {
+		return rt.NewGuest(wazero.NewModuleConfig())
+	}
+	ctx := context.Background()
+	if sockFirst {
+		sctx := sock.WithConfig(ctx, sock.NewConfig().WithTCPListener("127.0.0.1", 0))
+		if m, err := rt.InstantiateRaw(sctx, sharedDefault); err == nil {
+			m.Close(ctx)
+		}
+	}
+	m, err := rt.InstantiateRaw(ctx, sharedDefault)
+	if err != nil {
+		return nil, err
+	}
+	return w.New(m), nil
+}
+
+// runScript executes the script on a default-configured guest.
+func runScript(engine string, script []call, shared, sockFirst bool) (trace []string, err error) {
+	g, err := newDefaultGuest(engine, shared, sockFirst)
 	if err != nil {
 		return nil, err
 	}
@@ -252,13 +280,15 @@ func (c18) Run(t *tape.Tape, cfg sim.Config) (res sim.Result) {
 	res.Nontrivial = hasClock && hasRand && hasPoll
 	res.Steps = int64(len(script))
 	// direct closure checks come first, on a fresh guest
-	if !closureChecks(&res) {
+	if !closureChecks(&res, false) {
 		return
 	}
 	var ref []string
 	for _, eng := range []string{"interpreter", "compiler"} {
-		for inst := 0; inst < 2; inst++ {
-			tr, err := runScript(eng, script)
+		for inst := 0; inst < 3; inst++ {
+			// instance 0: fresh default config; 1 and 2: the process-wide shared default value,
+			// the last one after an instantiation of that value under a sock context
+			tr, err := runScript(eng, script, inst > 0, inst == 2)
 			if err != nil {
 				panic(err)
 			}
@@ -271,6 +301,10 @@ func (c18) Run(t *tape.Tape, cfg sim.Config) (res sim.Result) {
 				return
 			}
 		}
+	}
+	// the shared default value must still be closed after all those uses
+	if !closureChecks(&res, true) {
+		return
 	}
 	res.Logf("script of %d calls, trace hash %s", len(script), hashTrace(ref))
 	smp := ref
@@ -326,10 +360,10 @@ func (c18) Run(t *tape.Tape, cfg sim.Config) (res sim.Result) {
 }
 
 // closureChecks: what a default-configured guest must see.
-func closureChecks(res *sim.Result) bool {
+func closureChecks(res *sim.Result, shared bool) bool {
 	ctx := context.Background()
 	for _, eng := range []string{"interpreter", "compiler"} {
-		g, err := wasifs.RuntimeFor(eng).NewGuest(wazero.NewModuleConfig())
+		g, err := newDefaultGuest(eng, shared, false)
 		if err != nil {
 			panic(err)
 		}
@@ -411,7 +445,7 @@ func childMain(args []string) {
 		fmt.Fprintln(os.Stderr, "bad script:", err)
 		os.Exit(2)
 	}
-	tr, err := runScript(engine, script)
+	tr, err := runScript(engine, script, false, false)
 	if err != nil {
 		fmt.Fprintln(os.Stderr, err)
 		os.Exit(2)
